@@ -140,12 +140,15 @@ Theorem float_accept_syntax_partial : forall s, s <> [] ->
 Proof. exact float_accept_syntax_proof. Qed.
 Print Assumptions float_accept_syntax_partial.
 
-(* ---- "every span, log record and metric batch references its provider's resource" *)
-Theorem provider_resource_referenced : forall (rs : list resource) (ops : list (signal * nat)),
-  Forall2 (fun op it => match nth_error rs (snd op) with
-                        | Some r => it = Some (mk_item_obs (Some (snd op)) r)
-                        | None => it = None
-                        end) ops (run_emits rs ops).
+(* ---- "every span, log record and metric batch references its provider's resource": for every script of
+        emissions, meter / instrument creations, measurements and collections (cumulative and delta readers) and
+        every state of the meters - so for batches with data and batches WITHOUT any data alike - the items the
+        exporters / reader callbacks receive are, one per emitting or collecting operation and in order, items
+        referencing the resource of the provider the operation went through *)
+Theorem provider_resource_referenced : forall (rs : list resource) (ops : list pop) (st : pstate),
+  map (option_map fst) (run_pops rs st ops) =
+  map (fun i => option_map (fun r => mk_item_obs (Some i) r) (nth_error rs i))
+      (flat_map (fun op => match observed op with Some i => [i] | None => [] end) ops).
 Proof. exact provider_resource_referenced_proof. Qed.
 Print Assumptions provider_resource_referenced.
 
@@ -183,11 +186,8 @@ Theorem model_meets_spec_scripts : forall ra sn ops, rops_wf 0 ops ->
   clause_rops ra sn ops (map obs_of_o (run_rops ra sn ops)) = [].
 Proof. exact clause_rops_ok. Qed.
 Print Assumptions model_meets_spec_scripts.
-Theorem model_meets_spec_providers : forall rs ops,
-  Forall (fun op => (snd op < length rs)%nat) ops ->
-  clause_emits rs ops (map (fun it => match it with
-                                       | Some p => Some (match p_ref p with Some i => Z.of_nat i | None => -1 end, obs_of (p_res p))
-                                       | None => None
-                                       end) (run_emits (resources_of rs) ops)) = [].
+Theorem model_meets_spec_providers : forall rs ops st,
+  Forall (fun op => match observed op with Some i => (i < length rs)%nat | None => True end) ops ->
+  clause_emits rs ops (map to_pobs (run_pops (resources_of rs) st ops)) = [].
 Proof. exact clause_emits_ok. Qed.
 Print Assumptions model_meets_spec_providers.
